@@ -268,7 +268,8 @@ TRUSTED_BASE = [
 def run_check(prop: str, mod, tier: str, seed: int) -> int:
     setup_env()
     ctx = Ctx(prop, tier, seed)
-    out_lines: list[str] = []
+    for old in REPLAYS.glob(f"{prop}-*.json"):
+        old.unlink()
 
     def say(s):
         print(s, flush=True)
